@@ -129,7 +129,7 @@ def case_map_canon(bounds):
             bad.append("offset")
         return bool(bad), f"tsl={tsl} x={x}: {bad}"
 
-    return run_case(fn, replay, sample=dict(bounds=bounds), key=str(bounds))
+    return run_case(fn, replay, witness=True, sample=dict(bounds=bounds), key=str(bounds))
 
 
 # ---------------------------------------------------------------- (2) from_strides
@@ -164,7 +164,7 @@ def case_from_strides(bounds):
         a, b = Lambda_py(bounds, gs, x), sum(xi * s for xi, s in zip(x, strides))
         return a != b or tsl.offset != mval(m, "off"), f"strides={strides} tsl={tsl} x={x} {a} vs {b}"
 
-    return run_case(fn, replay, sample=dict(bounds=bounds), key=str(bounds))
+    return run_case(fn, replay, witness=True, sample=dict(bounds=bounds), key=str(bounds))
 
 
 # ---------------------------------------------------------------- (4) largest common contiguous block
@@ -225,7 +225,7 @@ def case_lccb(case):
         bad = [nm for nm, c in check(a, b, res, start, lambda p, q: p == q, lambda p, q: p * q) if not c]
         return bool(bad), f"a={a} b={b} start={start} lccb={[str(s) for s in res]}: {bad}"
 
-    return run_case(fn, replay, sample=dict(bounds=bounds, differing=sorted(diff)), key=str(case), max_paths=400)
+    return run_case(fn, replay, witness=True, sample=dict(bounds=bounds, differing=sorted(diff)), key=str(case), max_paths=400)
 
 
 # ---------------------------------------------------------------- (7) numpy enumeration views vs solver
@@ -333,7 +333,7 @@ def case_print(case):
     def sig(f, v):
         return "tsl:print_parse:" + ("dynamic_offset" if offkind == "dyn" else "static_offset")
 
-    return run_case(fn, replay, signature=sig, sample=dict(bounds=bounds, dynamic=sorted(dyn), offset=offkind),
+    return run_case(fn, replay, witness=True, signature=sig, sample=dict(bounds=bounds, dynamic=sorted(dyn), offset=offkind),
                     key=str(case), max_paths=64)
 
 
@@ -443,7 +443,7 @@ def case_ops(case):
             bad.append("keys")
         return bool(bad), f"tsl={attr.data} sizes={sizes} bounds={rb} steps={rs}: {bad}"
 
-    return run_case(fn, replay, sample=dict(bounds=bounds, dynamic_dims=sorted(dyn_dims)), key=str(case))
+    return run_case(fn, replay, witness=True, sample=dict(bounds=bounds, dynamic_dims=sorted(dyn_dims)), key=str(case))
 
 
 # ---------------------------------------------------------------- (6) memref-to-arith subview pointer
@@ -543,7 +543,7 @@ def case_subview(case):
         exp = (base + Lambda_py(bounds, ss, x) * (elt // 8)) % 2 ** 32
         return got != exp, f"bounds={bounds} steps={ss} offsets={x} ptr={got} expected={exp}"
 
-    return run_case(fn, replay, sample=dict(bounds=bounds, elt=elt, dynamic=dynmask), key=str(case))
+    return run_case(fn, replay, witness=True, sample=dict(bounds=bounds, elt=elt, dynamic=dynmask), key=str(case))
 
 
 # ---------------------------------------------------------------- driver
